@@ -342,6 +342,10 @@ def plan_C06(w):
     q = Q(w)
     known = vlib.load_known()
     run_mc(w, [("hg1", "MC_hg1.cfg", 4, 300)])
+    r = w.model_check("hg1live", "MC_hg1_live.cfg", module="MC_hg.tla", workers=2, timeout=300)
+    if not r.get("complete"):
+        raise Infra("MC_hg1_live did not complete: %s" % r.get("raw_tail"))
+    log("  mc hg1live   FairSpec (weak fairness of the node's own steps, strong fairness of delivery): C06_EventuallyIdle, C06_AllCommitted hold for N=1 (for N >= 2 the event bound of an exhaustive model cuts progress short: liveness is decided on traces)")
     kinds = [("liveA", dict(traces=14, n=0, steps=110, full=0)), ("liveB", dict(traces=6, n=4, steps=160, full=0))] if q else \
             [("live%d" % i, dict(traces=21, n=0, steps=220, full=0)) for i in range(4)] + \
             [("liveN7", dict(traces=6, n=7, steps=300, full=0)), ("liveBd", dict(traces=6, n=4, steps=200, full=0, store="badger", cache=400))]
